@@ -1364,7 +1364,7 @@ class CompareModelsAnyM(Contract):
     target = MS + 'compare_models'
     prop = 'C17'
     fin = 3
-    fin_range = 7
+    fin_range = 5          # M <= 2 models of <= 2 draws: positions and offsets up to 4
     comprehensions = True
     options = {'div_check': False}
 
